@@ -249,3 +249,66 @@ Lemma crossed_commit_refuted :
   q_rows (run_query s O (mk_pred (holds (FIdx IA [3])))) = [Row 1 3 3 0] /\
   l_rev (li s) !! 1%N = Some 2 /\ (ra <$> rows s !! 1%N) = Some 3.
 Proof. vm_compute. done. Qed.
+
+(* ---- the observable itself: rows sorted by key ---- *)
+Definition kleb (a b : row) : bool := N.leb (rk a) (rk b).
+Lemma kleb_total a b : kleb a b = false -> kleb b a = true.
+Proof. unfold kleb. rewrite N.leb_gt, N.leb_le. lia. Qed.
+Lemma kleb_trans a b c : kleb a b = true -> kleb b c = true -> kleb a c = true.
+Proof. unfold kleb. rewrite !N.leb_le. lia. Qed.
+
+Lemma lsorted_lfilter {A} (leb : A -> A -> bool) (p : A -> bool) l :
+  lsorted leb l -> lsorted leb (List.filter p l).
+Proof.
+  induction l as [|x t IH]; simpl; [done|]. intros [Hx Ht]. destruct (p x); simpl; [|by apply IH].
+  split; [|by apply IH]. intros b Hb. apply Hx. by apply elem_of_lfilter in Hb as [? _].
+Qed.
+
+(* two key-sorted lists without repeated keys that are permutations of each other are equal *)
+Lemma sorted_perm_eq (l1 l2 : list row) :
+  lsorted kleb l1 -> lsorted kleb l2 -> NoDup (map rk l1) -> l1 ≡ₚ l2 -> l1 = l2.
+Proof.
+  revert l2. induction l1 as [|a t1 IH]; intros l2 S1 S2 Hnd Hp.
+  - by apply Permutation_nil_l in Hp.
+  - destruct l2 as [|b t2]; [by apply Permutation_nil_r in Hp|].
+    destruct S1 as [Ha S1]. destruct S2 as [Hb S2].
+    assert (Hab : a = b).
+    { assert (Hbin : b ∈ a :: t1) by (rewrite Hp; by left).
+      assert (Hain : a ∈ b :: t2) by (rewrite <- Hp; by left).
+      apply elem_of_cons in Hbin as [->|Hbin]; [done|].
+      apply elem_of_cons in Hain as [->|Hain]; [done|].
+      specialize (Ha b Hbin). specialize (Hb a Hain). unfold kleb in Ha, Hb.
+      apply N.leb_le in Ha, Hb. assert (Hk : rk a = rk b) by lia.
+      simpl in Hnd. apply NoDup_cons in Hnd as [Hn _]. exfalso. apply Hn.
+      rewrite Hk. apply elem_of_list_fmap. by exists b. }
+    subst b. f_equal. apply IH; [done|done| |by apply Permutation_cons_inv in Hp].
+    simpl in Hnd. by apply NoDup_cons in Hnd as [_ ?].
+Qed.
+
+Lemma sorted_rows_lsorted (v : table) : lsorted kleb (sorted_rows v).
+Proof. apply (isort_sorted kleb kleb_total kleb_trans). Qed.
+
+(* the canonical form the correspondence compares: the indexed answer sorted by key IS the
+   scan's answer (which is produced in key order) *)
+Theorem index_eq_scan_sorted m1 seed ops t f :
+  Forall op_in_scope ops -> nodup_keys f = true ->
+  let s := run (init m1 true seed) ops in
+  sort_rows (q_rows (run_query s t (build f))) = q_rows (run_query s t (mk_pred (holds f))).
+Proof.
+  intros Ho Hn s. destruct (reach_coh m1 seed ops Ho) as [Hc _]. fold s in Hc.
+  rewrite (scan_query s t). simpl.
+  pose proof (query_perm s t Hc f Hn) as Hp.
+  apply sorted_perm_eq.
+  - apply (isort_sorted kleb kleb_total kleb_trans).
+  - rewrite select_view. apply lsorted_lfilter, sorted_rows_lsorted.
+  - assert (P : map rk (sort_rows (q_rows (run_query s t (build f)))) ≡ₚ map rk (sp_select (abs s) t (holds f))).
+    { apply Permutation_map. unfold sort_rows. by rewrite isort_perm. }
+    rewrite P, select_view.
+    assert (Hnd := sorted_rows_keys_nodup (view s t) (view_key_ok s t Hc)).
+    revert Hnd. generalize (sorted_rows (view s t)). intros l. induction l as [|x l IH]; simpl; intros Hnd; [constructor|].
+    apply NoDup_cons in Hnd as [Hx Hnd]. destruct (holds f x); simpl; [|by apply IH].
+    apply NoDup_cons. split; [|by apply IH]. intros Hin. apply Hx.
+    apply elem_of_list_fmap in Hin as (y & -> & Hy). apply elem_of_lfilter in Hy as [Hy _].
+    apply elem_of_list_fmap. by exists y.
+  - unfold sort_rows. by rewrite isort_perm.
+Qed.
